@@ -77,7 +77,7 @@ def run_property(ctx, mod, units, t0):
                 replay_cache[res[i]["name"]] = tuple(early[j])
         unk = [i for i in unk if res[i]["name"] not in replay_cache]
     if unk and len(unk) <= 40:
-        for seed in (0, 7, 1234):
+        for seed in (0, 7):
             again = solve.solve_all([allobs[i] for i in unk], wall_ms=(wall or solve.WALL_MS) * 3, rlimit=solve.RLIMIT * 4, seed=seed)
             for i, x in zip(unk, again):
                 if x["result"] != "unknown":
